@@ -75,6 +75,19 @@ RULE = (
     'by the right call; a create() that fails half-way (stream error, missing directory) followed by a second '
     'create(); experiment records and instrument read back with the package\'s reader fed into a second build; one '
     'pixel table of 2^20 + 7 pixels written in three chunks. '
+    'Text that is not in Unicode normal form (every entry changes under NFC: decomposed accents, ANGSTROM / KELVIN / '
+    'OHM SIGN, conjoining jamo, Greek question mark, compatibility ideograph; and NFC-but-not-NFKC text: MICRO SIGN, '
+    'fullwidth, ligatures, superscripts) in EVERY string field of every model, and in file and directory names. '
+    'File-system forms of a path target: a dangling symbolic link, one of two hard-linked names, '
+    '<symlink to a directory>/../name, a relative name, an existing file that a reader holds open. '
+    'Streams that are NOT EMPTY when create() runs (sequences on one BytesIO): rewound after an earlier shorter / '
+    'longer / equally long file, the same builder created again at the start and behind the file just written, '
+    'BytesIO created from the bytes of older files or from other bytes of the same / a larger / a smaller size, '
+    'standing at the start / inside / at the end. '
+    'The very same model objects modified in place (values, a slice, a unit) between two builds; sizes that '
+    'coincide with the lengths the format uses (2, 3, 4, 8, 9, 10 for pixels = runs = energies = detectors = '
+    'histogram axes); one build + read in a fresh interpreter that imports only scippneutron.io.sqw, compared '
+    'byte for byte (time stamps blanked) with the same program run in the worker. '
     'distinct = distinct (program set, length, byte order, pixel class, chunk relation, runs class, '
     'mode, string class, target, keyword/dtype/unit/size variant, state of the output path) signatures; the '
     'empty program in native order on a fresh target is the only trivial one'
@@ -94,8 +107,14 @@ ASSUMPTIONS = [
     'without pixel data)',
     'a real output path that already holds a file is replaced: after create() the file at the path is '
     'exactly the container (open mode "wb"); a second create() of one builder writes what the builder holds '
-    'after all calls made so far (a repeated call replaces what the earlier one registered); BytesIO targets '
-    'are always handed over empty (what a stream holds before is its owner\'s business)',
+    'after all calls made so far (a repeated call replaces what the earlier one registered)',
+    'a stream (BytesIO) is written from the position it stands at: the file header begins there, the positions of '
+    'the allocation table are offsets in the stream (the reader is handed the stream at the same position); the '
+    'bytes in front of that position are not touched; bytes the stream held BEHIND the end of the last extent stay '
+    'as they were (a stream is not truncated by the writer: for such a stream "end-of-file" is the end of the last '
+    'extent, counted, and every byte inside the declared extents is judged as for any other file)',
+    'strings are stored code point by code point (UTF-8 of exactly the string supplied; no Unicode normalisation); '
+    'a path names the file the operating system resolves it to (symbolic links first, then ..)',
     'argument forms: an int / str subclass instance (IntEnum, (str, Enum) member, numpy integer given as chunk_size '
     'or run id, np.str_) stands for its value; masks, variances on coordinates and the name of the pixel dimension '
     'do not change what is written (every pixel is written, a mask removes nothing from the file); forms outside '
@@ -149,7 +168,18 @@ ALPHABETS = {
     'latin': list('äöüßéñÅØ'),          # 2-byte UTF-8
     'cjk': list('中文データ測定'),                  # 3-byte
     'astral': ['\U0001d11e', '\U00010348', '\U0001f600', '\U0002070e'],          # 4-byte
+    # text that is NOT in Unicode normal form C: every entry changes under NFC (decomposed accents, the
+    # ANGSTROM / KELVIN / OHM signs, conjoining Hangul jamo, Greek question mark, a combining mark that NFC
+    # splits, a CJK compatibility ideograph, a composition exclusion that NFC decomposes).  Strings are
+    # stored and recovered code point by code point; a string that merely normalises to another is not it.
+    'non_nfc': ['e\u0301', 'A\u030a', 'o\u0308', 'n\u0303', '\u212b', '\u212a', '\u2126', '\u1112\u1161\u11ab',
+                '\u1100\u1161', '\u037e', '\u0344', '\uf900', '\u0958'],
+    # text that is in NFC but not in NFKC form (compatibility characters): MICRO SIGN, fullwidth letters and
+    # digits, ligatures, superscripts, circled digits, squared units, vulgar fractions, long s
+    'non_nfkc': ['\u00b5', '\uff21', '\uff42', '\uff11', '\ufb01', '\ufb00', '\u00b2', '\u2460', '\u2122',
+                 '\u3392', '\u00bd', '\u017f'],
 }
+UNNORMALISED = ('non_nfc', 'non_nfkc')
 
 
 def all_programs():
@@ -515,6 +545,13 @@ INT_FORMS = ('np.int64', 'np.int32', 'np.intp', 'np.uint32', 'np.prod', 'ceil_as
 STR_FORMS = ('np.str_', 'str_enum', 'str_subclass')
 MASK_CLASSES = ('extremes', 'all', 'several')
 PIX_DIMS = ('row', 'range', 'axis', 'detector', 'energy_transfer', '_', 'x', 'pixel index')
+# what happens to the NAME of a real file between Sqw.open and Sqw.read_data_block (the reader must go on
+# reading the file it opened): opened by a relative name and the working directory changes to a directory that
+# holds another file of that name / no such file; the directory entry is replaced by another file (os.replace),
+# removed, renamed; opened through a symbolic link that is then pointed at another file; opened by one of two
+# hard-linked names which is then removed
+READER_FS = ('chdir_other_file', 'chdir_no_file', 'replaced', 'unlinked', 'renamed', 'symlink_retargeted',
+             'hardlink_removed')
 # exception types of a refusal (argument forms outside the documented types may be refused)
 REFUSAL = (TypeError, ValueError, AttributeError)
 
@@ -1006,6 +1043,8 @@ def open_target(case, tmpdir, rng, session):
     if case['target'] == 'bytesio':
         if F.get('target_class') == 'bytesio_subclass' or F.get('retry') == 'stream_error':
             return CountingBytesIO()
+        if case.get('stream') is not None:
+            return open_stream(case, session)
         return io.BytesIO()
     if case.get('reuse_path') and session.get('path'):
         path = session['path']
@@ -1015,9 +1054,18 @@ def open_target(case, tmpdir, rng, session):
             session['path'] = path
     session.setdefault('paths', [])
     if case.get('link') == 'symlink':
+        # a symbolic link to the path (dangling when there is no file at the path yet)
         link = path + '.lnk'
         if not os.path.lexists(link):
             os.symlink(path, link)
+        session['paths'] += [link, path]
+        case['_dangling'] = not os.path.exists(path)
+        path = link
+    elif case.get('link') == 'hardlink' and os.path.exists(path):
+        # a second name of the file that is at the path
+        link = path + '.hl'
+        if not os.path.lexists(link):
+            os.link(path, link)
         session['paths'].append(link)
         path = link
     if case.get('continue_builder'):
@@ -1041,15 +1089,78 @@ def open_target(case, tmpdir, rng, session):
         case['existing'] = {'size': os.path.getsize(path), 'content': content,
                             'other_byteorder': bool(content == 'sqw' and last is not None
                                                     and last != resolved(case['byteorder']))}
+        if case.get('hold_open'):
+            # a reader holds the existing file open while it is written again
+            session['held'] = open(path, 'rb')
+            session['held'].read(16)
     if F.get('retry') == 'missing_dir':
         # the directory of the output file does not exist when create() is called first
         path = os.path.join(path + '.d', 'inner.sqw')
-    if case.get('path_as', 'str') != 'str' and not case.get('continue_builder'):
+    if case.get('path_as') == 'relative' and not case.get('continue_builder'):
+        # a relative name (with a directory part): the working directory is the grandparent of the file
+        # from Sqw.build to the last read of the case (restored by close_case)
+        d, name = os.path.split(path)
+        session['cwd0'] = os.getcwd()
+        os.chdir(os.path.dirname(d))
+        path = os.path.join(os.path.basename(d), name)
+    elif case.get('path_as', 'str') != 'str' and not case.get('continue_builder'):
         import pathlib
         how = case['path_as']
         path = {'Path': pathlib.Path, 'PurePath': pathlib.PurePath, 'FsPath': FsPath, 'np.str_': np.str_}[how](path)
     session['target'] = path
     return path
+
+
+def open_stream(case, session):
+    """The BytesIO target of a case of a sequence on ONE stream (``case['stream']``): a stream that is not
+    empty when create() runs.  ``object``: 'fresh' (new, empty), 'same' (the very object of the previous
+    case: an earlier file is still in it), 'new' (a BytesIO created from bytes); ``fill``: None (what the
+    stream holds: the older SQW file(s)) or other bytes ('random' / 'ones') of the same / a larger / a smaller
+    size than the container written last; ``at``: the position create() finds: 'start' (rewound, seek(0)),
+    'keep' (where the previous create() left it: behind the older file), 'inside', 'end'.
+    What the stream held and where it stood is recorded: case['_prefill'], case['_base']."""
+    st = case['stream']
+    prev = session.get('stream')
+    if st['object'] == 'fresh' or prev is None:
+        t = io.BytesIO()
+        session['stream'] = t
+        session['target'] = t
+        return t
+    n0 = session.get('last_len') or 4096
+    fill = st.get('fill')
+    content = 'sqw'
+    data = prev.getvalue()
+    if fill:
+        size = {'same': n0, 'longer': max(3 * n0 + 17, 1 << 16), 'shorter': max(n0 // 2, 1)}[st.get('size', 'same')]
+        data = b'\xff' * size if fill == 'ones' else \
+            np.random.Generator(np.random.PCG64([*case['vseed'], 78])).bytes(size)
+        content = 'garbage'
+    if st['object'] == 'new' and not case.get('continue_builder'):
+        t = io.BytesIO(data)            # created from existing bytes; stands at 0
+        keep = 0
+    else:
+        t = prev
+        keep = session.get('last_end') or 0       # where the create() of the previous case left the stream
+        if fill:
+            t.seek(0)
+            t.truncate(0)
+            t.write(data)
+    at = st.get('at', 'start')
+    pos = {'start': 0, 'keep': keep, 'inside': max(len(data) // 3, 1), 'end': len(data)}[at]
+    t.seek(pos)
+    case['_prefill'], case['_base'] = data, pos
+    case['existing_stream'] = {'size': len(data), 'content': content, 'position': pos,
+                               'object': 'same' if t is prev else 'created_from_bytes',
+                               'at': 'start' if pos == 0 else 'end' if pos >= len(data) else 'inside'}
+    session['stream'] = t
+    session['target'] = t
+    return t
+
+
+def base_of(case):
+    """Position of the stream when create() was called (0 for files and fresh streams): where the file
+    header is; the positions of the allocation table are offsets in the stream."""
+    return int((case or {}).get('_base') or 0)
 
 
 def container_length(f):
@@ -1067,6 +1178,19 @@ def close_case(session, case, spec, target, f):
     if ex is not None and n is not None:
         ex['relation'] = 'empty' if ex['size'] == 0 else 'longer' if ex['size'] > n else \
             'shorter' if ex['size'] < n else 'same_size'
+    sx = case.get('existing_stream')
+    if sx is not None and n is not None:
+        pre = case['_prefill']
+        sx['relation'] = 'at_end' if sx['position'] >= sx['size'] else 'longer' if sx['size'] > n else \
+            'shorter' if sx['size'] < n else 'same_size'
+        d = next((d for d in f.descriptors if d.block_type == 'dnd_data_block'), None)
+        sx['image_over_nonzero_bytes'] = bool(d is not None and any(pre[d.position:d.position + d.size]))
+    if isinstance(target, io.BytesIO) and case.get('stream') is not None:
+        session['last_len'] = (n - base_of(case)) if n is not None else None
+        session['last_end'] = n
+    held = session.pop('held', None)
+    if held is not None:
+        held.close()
     if case.get('reuse_path'):
         session.update(case=case, spec=spec, last_bo=resolved(case['byteorder']))
     if not isinstance(target, io.BytesIO) and not case.get('keep_file'):
@@ -1074,9 +1198,15 @@ def close_case(session, case, spec, target, f):
             os.remove(target)
         except OSError:
             pass
+    cwd0 = session.pop('cwd0', None)
+    if cwd0 is not None:
+        os.chdir(cwd0)
 
 
 def close_item(session):
+    cwd0 = session.pop('cwd0', None)
+    if cwd0 is not None:
+        os.chdir(cwd0)
     for p in reversed(session.get('paths', [])):
         try:
             os.remove(p)
@@ -1092,6 +1222,46 @@ def case_reps(case):
     for r in range(1, case.get('repeat', 1)):
         other = 'file' if case['target'] == 'bytesio' else 'bytesio'
         yield dict(case, rep=r, target=other if r % 2 else case['target'])
+
+
+def mutated(sc, case, spec, models):
+    """(spec of this execution).  The second build of a case with forms['mutate'] uses the VERY SAME model
+    objects after they were modified in place: values of the signal (whole array), a slice of a coordinate, the
+    unit of a float64 coordinate (relabelled in place to another convertible unit), efix / en of the first run,
+    the lattice of the sample.  The file must hold the new contents."""
+    if not (case.get('rep') and forms_of(case).get('mutate')):
+        return spec
+    spec = copy.deepcopy(spec)
+    prog = case.get('calls', case['program'])
+    if 'pix' in prog:
+        da, rows = models['pix'], spec['pix']['rows']
+        r = rows['signal']
+        r['values'] = (np.asarray(r['values']) * 2 + 1).astype(r['values'].dtype)
+        da.data.values[...] = r['values']
+        for name in ('u1', 'u2', 'u3', 'u4'):
+            r = rows[name]
+            n = len(r['values'])
+            r['values'] = np.array(r['values'])
+            r['values'][: n // 2 + 1] = r['values'][: n // 2 + 1][::-1] + r['values'].dtype.type(3)
+            da.coords[name].values[: n // 2 + 1] = r['values'][: n // 2 + 1]
+            if r['dtype'] == 'float64' and r['unit'] in CONVERTIBLE:
+                opts = CONVERTIBLE[r['unit']]
+                r['unit'] = opts[(opts.index(r['unit']) + 1) % len(opts)]
+                da.coords[name].unit = r['unit']
+        e, m = spec['experiments'][0], models['experiments'][0]
+        e['efix']['values'] = (np.asarray(e['efix']['values']) + 1)
+        e['efix']['values'] = e['efix']['values'].item() if e['efix']['values'].ndim == 0 else e['efix']['values']
+        m.efix.values[...] = e['efix']['values']
+        e['en']['values'] = np.asarray(e['en']['values']) * 2
+        m.en.values[...] = e['en']['values']
+        e['u'] = np.asarray(e['u'])[::-1].copy()
+        m.u.values[...] = e['u']
+    if 'samp' in prog:
+        a = spec['sample']['alatt']
+        a['values'] = np.asarray(a['values']) + 0.5
+        models['samp'].lattice_spacing.values[...] = a['values']
+    case['_mutated'] = True
+    return spec
 
 
 def describe_rows(case, spec):
@@ -1254,8 +1424,25 @@ def make_items(tier: str, seed: int) -> list[dict]:
                 single(string={'field': fld, 'alphabet': alphabet, 'length': ln},
                        byteorder=orders[int(rng.integers(0, 3))], program=shuffled(CALLS),
                        target='bytesio')
-    # (E) real files: plain / deep / long / non-ASCII path
-    for pathkind in ('plain', 'deep', 'long', 'nonascii', 'nonascii_dir'):
+    # (D') text that is not in Unicode normal form (NFC / NFKC) in EVERY string field of every model, short,
+    #      long and one entry long, both targets: stored and read back code point by code point
+    k = 0
+    for alphabet in UNNORMALISED:
+        for fld in STRING_FIELDS:
+            single(string={'field': fld, 'alphabet': alphabet, 'length': 13}, byteorder=orders[(k + seed) % 3],
+                   program=shuffled(CALLS), target=('bytesio', 'file')[(k // 3 + seed) % 2],
+                   mode=('direct', 'indirect')[k % 2], pin=0 if fld in ('title', 'sample_name') else None)
+            k += 1
+        for ln in (1, 1000) if not thorough else (1, 2, 255, 1000, 5000):
+            fld = STRING_FIELDS[(k + seed) % len(STRING_FIELDS)]
+            single(string={'field': fld, 'alphabet': alphabet, 'length': ln}, byteorder=orders[(k + seed) % 3],
+                   program=shuffled(CALLS), target='bytesio')
+            k += 1
+    # (E) real files: plain / deep / long / non-ASCII path; file and directory names that are not in Unicode
+    #     normal form; a path through `<symbolic link to a directory>/..` (the operating system resolves the link
+    #     first: the file lies next to the link's target, not next to the link)
+    for pathkind in ('plain', 'deep', 'long', 'nonascii', 'nonascii_dir', 'non_nfc', 'non_nfkc', 'non_nfc_dir',
+                     'dotdot_symlink'):
         for bo in orders:
             single(target='file', path=pathkind, byteorder=bo, program=shuffled(CALLS),
                    npix=int(rng.choice([0, 3, 50])))
@@ -1340,6 +1527,15 @@ def make_items(tier: str, seed: int) -> list[dict]:
                byteorder=orders[(j + seed) % 3], values='wide', nruns=2,
                rowset=('default', 'superset', 'subset')[j % 3])
         j += 1
+    # (I') sizes that coincide with lengths the format / the implementation uses itself (2 = 'range', 3 = vectors,
+    #      4 = axes, 9 = pixel rows, 8 / 10 next to it): pixel count, runs, energy grid, detectors and histogram
+    #      axes of exactly that length, in both modes
+    for n in (2, 3, 4, 8, 9, 10):
+        for mode in ('direct', 'indirect'):
+            single(program=shuffled(CALLS), npix=n, nruns=n, n_en=n, ndet=n if mode == 'indirect' else None,
+                   mode=mode, dnd_bins=[n, 1 + n % 3, n, 2], chunk=(None, n)[j % 2], sizes_coincide=n,
+                   target=('bytesio', 'file')[j % 2], byteorder=orders[(j + seed) % 3])
+            j += 1
     # (J) the heavy cases of the run (~100 MB / ~35 MB files): arrays beyond 2^22 elements
     heavy_bins = shape_near(rng, HEAVY + (HEAVY >> 5), 'above')
     single(pin=N_SHARDS - 1, program=shuffled(['dnd', 'pix']), dnd_bins=heavy_bins, target='bytesio',
@@ -1384,8 +1580,60 @@ def make_items(tier: str, seed: int) -> list[dict]:
             dict(program=shuffled(CALLS), byteorder=bo, npix=50, scribble='empty'),
             dict(program=['pix'], byteorder=other, npix=3, nruns=1, link='symlink'),    # through a symlink
             dict(program=shuffled(CALLS), byteorder=bo, npix=5, scribble='shorter'),
+            dict(program=with_pix(), byteorder=bo, npix=40, nruns=2, link='hardlink'),  # one of two hard-linked names
+            dict(program=shuffled(CALLS), byteorder=other, npix=11, hold_open=True),    # while a reader holds it open
         ], path=('plain', 'nonascii', 'deep')[(k + seed) % 3], path_as=('str', 'Path')[(k + seed) % 2],
             rowset='default')
+    # (K') other file-system forms of a path target: a dangling symbolic link (the file is created where the link
+    #      points), a relative name (working directory = two levels above the file from Sqw.build to the last read)
+    for k, bo in enumerate(orders):
+        single(program=shuffled(CALLS), byteorder=bo, target='file', link='symlink', keep_file=True,
+               path=('plain', 'nonascii', 'non_nfc')[(k + seed) % 3], npix=7)
+        single(program=shuffled(CALLS), byteorder=bo, target='file', path_as='relative',
+               path=('deep', 'plain', 'non_nfc_dir')[(k + seed) % 3], npix=7)
+    # (K'') streams that are NOT EMPTY when create() runs: sequences of builds on one BytesIO -- rewound after an
+    #      earlier (shorter / longer / equally long) file, the same builder created again at the start and behind the
+    #      file just written, a BytesIO created from the bytes of older files or from other bytes of the same / a
+    #      larger / a smaller size, standing at the start, inside and at the end.  The file begins where the stream
+    #      stood; every extent the table declares must hold what it declares (the zero histogram too), whatever the
+    #      stream held there; what lies in front of the position is untouched
+    def stream_sequence(steps, **common):
+        cases = []
+        for st in steps:
+            kw = {**rand_variant(rng), **common, **st}
+            if kw.get('continue_builder'):
+                kw.setdefault('byteorder', cases[-1]['byteorder'])
+            cases.append(_base_case(target='bytesio', reuse_path=True, **kw))
+        items.append({'kind': 'same_stream', 'cases': cases})
+
+    for k in range(2):
+        bo = orders[(k + seed) % 3]
+        other = 'big' if resolved(bo) == 'little' else 'little'
+        img = ([4, 3, 2, 5], [6, 5, 4, 3], [2, 9, 1, 7])
+        stream_sequence([
+            dict(program=shuffled(CALLS), npix=300, nruns=3, byteorder=bo, stream={'object': 'fresh'}),
+            dict(continue_builder=True, program=[], stream={'object': 'same', 'at': 'start'}),   # same size
+            dict(continue_builder=True, program=[], stream={'object': 'same', 'at': 'keep'}),    # behind the first
+            dict(program=shuffled(CALLS), npix=2000, nruns=2, chunk=64, byteorder=bo, dnd_bins=img[0],
+                 stream={'object': 'same', 'at': 'start'}),                         # rewound: older file shorter
+            dict(program=shuffled(['dnd', 'pix']), npix=30, nruns=1, byteorder=(bo, other)[k], dnd_bins=img[1],
+                 stream={'object': 'same', 'at': 'start'}),                         # rewound: older file longer
+            dict(continue_builder=True, program=[], stream={'object': 'same', 'at': 'start'}),   # again, tail behind
+            dict(continue_builder=True, program=[], stream={'object': 'same', 'at': 'keep'}),    # inside the stream
+            dict(program=shuffled(CALLS), npix=5, byteorder=other, dnd_bins=img[2],
+                 stream={'object': 'new', 'at': 'start'}),                          # BytesIO(bytes of older files)
+            dict(continue_builder=True, program=[],
+                 stream={'object': 'same', 'fill': 'random', 'size': 'same', 'at': 'start'}),
+            dict(program=shuffled(CALLS), npix=50, byteorder=bo, dnd_bins=img[1],
+                 stream={'object': 'new', 'fill': 'random', 'size': 'longer', 'at': 'start'}),
+            dict(program=shuffled(CALLS), npix=50, byteorder=other, dnd_bins=img[0],
+                 stream={'object': 'new', 'fill': ('ones', 'random')[k], 'size': 'shorter', 'at': 'start'}),
+            dict(program=shuffled(['dnd', 'pix', 'samp']), npix=9, byteorder=bo, dnd_bins=img[2],
+                 stream={'object': 'new', 'fill': 'random', 'size': 'longer', 'at': 'inside'}),
+            dict(program=shuffled(CALLS), npix=9, byteorder=other,
+                 stream={'object': 'same', 'fill': ('random', 'ones')[k], 'size': 'shorter', 'at': 'end'}),
+            dict(continue_builder=True, program=[], stream={'object': 'same', 'at': 'keep'}),    # sqw, at the end
+        ], rowset='default')
     for _ in range(0 if not thorough else 40):
         steps = []
         for m in range(int(rng.integers(2, 9))):
@@ -1549,6 +1797,24 @@ def make_items(tier: str, seed: int) -> list[dict]:
                mode='direct', meta=('random', 'canonical', 'f32')[j], target=('bytesio', 'file', 'bytesio')[j],
                byteorder=orders[(j + seed) % 3], nruns=(1, 3, 20)[j])
         k += 1
+    # -- the reader and the file system: the name of the file changes its meaning between Sqw.open and
+    #    read_data_block (judged by C13: the numbers must come from the file that was opened)
+    for j, how in enumerate(READER_FS):
+        formed({'reader_fs': how}, k, target='file', path=('plain', 'nonascii', 'deep')[(j + seed) % 3],
+               byteorder=orders[(j + seed) % 3], mode=('direct', 'indirect')[j % 2], npix=(37, 300)[j % 2])
+        k += 1
+    # -- the very same model objects modified IN PLACE between two builds (values, a slice, a unit): the second
+    #    file holds the new contents; results of the reader written into in place: the file and a second read
+    #    are not affected
+    for j in range(3):
+        formed({'mutate': True}, k, repeat=2, values='forced', meta=('random', 'canonical', 'mixed')[j],
+               dtypes=('all_f64', 'mixed', 'all_f64')[j], rowset=('default', 'superset', 'custom_units')[j],
+               target=('bytesio', 'file', 'bytesio')[j], mode=('direct', 'indirect', 'mixed')[j], nruns=1 + j)
+        k += 1
+    for j in range(3):
+        formed({'alias': True}, k, target=('bytesio', 'file', 'bytesio')[j], byteorder=orders[(j + seed) % 3],
+               mode='direct', npix=(50, 300, 9000)[j], chunk=(16, None, 1000)[j])
+        k += 1
     # -- everything at once
     formed({'masks': 'several', 'coord_variances': True, 'meta_variances': True, 'pix_dim': 'row',
             'chunk_as': 'np.int64', 'run_id_as': 'np.int32', 'str_as': 'np.str_', 'call_style': 'keyword',
@@ -1600,6 +1866,7 @@ def make_items(tier: str, seed: int) -> list[dict]:
 
 
 N_SHARDS = 16
+FRESH_SHARD = 5          # the shard that also runs the fresh-interpreter check
 
 
 def plan(tier, seed):
@@ -1645,6 +1912,20 @@ def target_for(case, tmpdir, rng):
         name = gen_string(rng, 180, 'ascii', True).replace(' ', '_').replace('.', '_') + tag + '.sqw'
     elif kind == 'nonascii':
         d, name = tmpdir, gen_string(rng, 20, 'mixed', True).replace(' ', '_') + tag + '.sqw'
+    elif kind in UNNORMALISED:
+        d, name = tmpdir, gen_string(rng, 12, kind, True) + tag + '.sqw'
+    elif kind == 'non_nfc_dir':
+        d, name = os.path.join(tmpdir, gen_string(rng, 8, 'non_nfc', True) + tag), 'f.sqw'
+    elif kind == 'dotdot_symlink':
+        # <tmp>/l<tag> -> <tmp>/x<tag>/sub ; the name <tmp>/l<tag>/../f.sqw denotes <tmp>/x<tag>/f.sqw
+        # (a lexical normalisation of the name would give <tmp>/f.sqw)
+        real = os.path.join(tmpdir, 'x' + tag, 'sub')
+        os.makedirs(real, exist_ok=True)
+        link = os.path.join(tmpdir, 'l' + tag)
+        if not os.path.lexists(link):
+            os.symlink(real, link)
+        case['_not_here'] = os.path.join(tmpdir, 'f' + tag + '.sqw')
+        return os.path.join(link, os.pardir, 'f' + tag + '.sqw')
     else:
         d = os.path.join(tmpdir, gen_string(rng, 12, 'cjk', True) + tag)
         name = 'f.sqw'
@@ -1700,10 +1981,15 @@ def existing_class(case):
     ex = case.get('existing')
     out = 'fresh' if ex is None else '%s:%s%s' % (ex['content'], ex.get('relation'),
                                                   ':other_byteorder' if ex['other_byteorder'] else '')
+    sx = case.get('existing_stream')
+    if sx is not None:
+        out = 'stream:%s:%s:%s:%s' % (sx['content'], sx.get('relation'), sx['at'], sx['object'])
     if case.get('continue_builder'):
         out += '+same_builder'
+    if case.get('hold_open'):
+        out += '+held_open'
     if case.get('link'):
-        out += '+' + case['link']
+        out += '+' + case['link'] + ('(dangling)' if case.get('_dangling') else '')
     if case.get('path_as', 'str') != 'str':
         out += '+' + case['path_as']
     return out
@@ -1733,7 +2019,8 @@ def case_summary(case):
     keys = ('program', 'byteorder', 'npix', 'chunk', 'nruns', 'mode', 'string', 'target', 'path', 'values',
             'run_ids', 'vseed', 'rowset', 'dtypes', 'meta', 'n_dims', 'pass_title', 'byteorder_as', 'dnd_bins',
             'ndet', 'n_en', 'repeat', 'rep', 'rows', 'row_units', 'row_dtypes', 'unit_plan', 'path_as',
-            'continue_builder', 'calls', 'scribble', 'scribble_fill', 'link', 'existing', 'forms', 'may_refuse')
+            'continue_builder', 'calls', 'scribble', 'scribble_fill', 'link', 'existing', 'forms', 'may_refuse',
+            'stream', 'existing_stream', 'hold_open')
     return {k: case[k] for k in keys if k in case and case[k] is not None}
 
 
@@ -1806,6 +2093,23 @@ def hit_forced(ctx, case, spec=None):
             ctx.hit('second_create_of_builder:existing_' + ex['relation'])
     if case['target'] == 'file' and case.get('path_as', 'str') != 'str':
         ctx.hit('path_as:' + case['path_as'])
+    if case.get('link') == 'symlink' and case.get('_dangling'):
+        ctx.hit('new_file:through_dangling_symlink')
+    if ex is not None and ex.get('relation') and case.get('hold_open'):
+        ctx.hit('existing_file:held_open_by_a_reader')
+    sx = case.get('existing_stream')
+    if sx is not None and sx.get('relation'):
+        ctx.hit('stream:%s:%s' % (sx['content'], sx['relation']))
+        ctx.hit('stream:' + sx['object'])
+        ctx.hit('stream:position_' + sx['at'])
+        if sx['content'] == 'sqw' and sx['at'] == 'start' and sx['object'] == 'same':
+            ctx.hit('stream:rewound_after_an_earlier_file')
+        if sx['content'] == 'sqw' and sx['at'] == 'end' and sx['object'] == 'same':
+            ctx.hit('stream:second_file_behind_the_first')
+        if sx['image_over_nonzero_bytes']:
+            ctx.hit('stream:histogram_over_nonzero_bytes')
+        if case.get('continue_builder'):
+            ctx.hit('second_create_of_builder:same_stream')
     F = forms_of(case)
     for k_, v in F.items():
         ctx.hit(f'form:{k_}={v}')
@@ -1821,9 +2125,15 @@ def hit_forced(ctx, case, spec=None):
         ctx.hit('meta:' + case['meta'])
     if case.get('rep'):
         ctx.hit('second_build_from_same_objects')
+    if case.get('_mutated'):
+        ctx.hit('second_build_after_in_place_modification')
     s = case['string']
     if s['alphabet'] != 'ascii' and s['length'] > 0:
         ctx.hit('non_ascii_string')
+    if s['alphabet'] in UNNORMALISED and s['length'] > 0:
+        ctx.hit('string:%s:%s' % (s['alphabet'], s['field']))
+    if case['target'] == 'file' and case.get('path') in (*UNNORMALISED, 'non_nfc_dir', 'dotdot_symlink'):
+        ctx.hit('path:' + case['path'])
     if s['length'] == 0:
         ctx.hit('empty_string')
     if s['length'] >= 5000:
@@ -1834,6 +2144,8 @@ def hit_forced(ctx, case, spec=None):
         ctx.hit('non_ascii_path')
     if len(case['program']) == 0:
         ctx.hit('empty_program')
+    if case.get('sizes_coincide'):
+        ctx.hit('sizes_all=%d' % case['sizes_coincide'])
 
 
 FORCED = ['chunk>npix', 'chunk==npix', 'chunk<npix', 'chunk<rows', 'chunks*ceil(rows/chunk)<npix',
@@ -1866,8 +2178,22 @@ FORCED = ['chunk>npix', 'chunk==npix', 'chunk<npix', 'chunk<rows', 'chunks*ceil(
           'form:target_class=bytesio_subclass', 'path_as:FsPath', 'path_as:PurePath', 'path_as:np.str_',
           'form:model_subclass=True', 'form:observe=True', 'form:retry=bin_edges', 'form:retry=stream_error',
           'form:retry=missing_dir', 'form:feedback=True', 'second_use:reader_results_fed_back',
+          *('form:reader_fs=' + k for k in READER_FS), 'form:mutate=True', 'form:alias=True',
+          'second_build_after_in_place_modification',
           'second_use:create_again_after_failure:stream_error', 'second_use:create_again_after_failure:missing_dir',
-          'npix>=2^20']
+          'npix>=2^20',
+          # text / file names that are not in Unicode normal form, in every string field
+          *('string:%s:%s' % (a, f) for a in UNNORMALISED for f in STRING_FIELDS),
+          'path:non_nfc', 'path:non_nfkc', 'path:non_nfc_dir', 'path:dotdot_symlink',
+          # file-system forms of the target; streams that are not empty when create() runs
+          'new_file:through_dangling_symlink', 'existing_file:through_hardlink', 'existing_file:held_open_by_a_reader',
+          'path_as:relative',
+          *('stream:%s:%s' % (c, r) for c in ('sqw', 'garbage') for r in ('longer', 'shorter', 'same_size')),
+          'stream:garbage:at_end', 'stream:sqw:at_end', 'stream:same', 'stream:created_from_bytes',
+          'stream:position_start', 'stream:position_inside', 'stream:position_end',
+          'stream:rewound_after_an_earlier_file', 'stream:second_file_behind_the_first',
+          'stream:histogram_over_nonzero_bytes', 'second_create_of_builder:same_stream', 'fresh_interpreter',
+          *('sizes_all=%d' % n for n in (2, 3, 4, 8, 9, 10))]
 
 
 # ------------------------------------------------------------ writer trace ---
@@ -2117,16 +2443,26 @@ def judge_structure(ctx, case, buf, trace, exc=None):
     nd = expected_n_dims(case)
     lit = D.header_literal(bo, 1, nd)
     ctx.event('header')
-    if buf[:len(lit)] != lit:
+    # a stream that was not empty: the file begins where the stream stood when create() was called; what
+    # the stream held before that position belongs to its owner
+    base = base_of(case)
+    pre = case.get('_prefill')
+    if pre is not None:
+        ctx.event('stream:not_empty')
+        head = (pre[:base] + bytes(base))[:base]        # a gap behind the old end reads as zeros
+        if bytes(buf[:base]) != head:
+            ctx.violation('stream_prefix_modified', f'the {base} bytes in front of the position the stream was '
+                          f'handed over at were changed', cs, mechanism='stream_prefix')
+    if buf[base:base + len(lit)] != lit:
         other = 'big' if bo == 'little' else 'little'
-        swapped = buf[:len(lit)] == D.header_literal(other, 1, nd)
+        swapped = buf[base:base + len(lit)] == D.header_literal(other, 1, nd)
         ctx.violation('header', 'file does not begin with the horace 4.0 header in the byte order '
-                      f'requested ({bo}): {bytes(buf[:26]).hex()}', cs,
+                      f'requested ({bo}): {bytes(buf[base:base + 26]).hex()}', cs,
                       mechanism='header_other_byteorder' if swapped else 'header_literal')
         if not swapped:
             return None
         bo = other
-    f = D.decode_file(buf, bo)
+    f = D.decode_file(buf, bo, base)
     if f.header_error or f.bat_error:
         ctx.violation('bat_undecodable', f'allocation table does not decode: '
                       f'{f.header_error or f.bat_error}', cs, mechanism='bat')
@@ -2217,6 +2553,13 @@ def judge_structure(ctx, case, buf, trace, exc=None):
                           f'extent declares {d.size}{diag}', cs, **keys)
         if d.position + d.size > len(buf):
             reported_eof = True
+    if not file_end_ok and not reported_eof and pre is not None and pos < len(buf) == len(pre) \
+            and bytes(buf[pos:]) == pre[pos:]:
+        # the stream held more bytes than the container needs: they lie behind the last extent and were
+        # left exactly as they were (a stream is not truncated by its user; the container ends where the
+        # table says) -- every byte the table declares was judged above
+        file_end_ok = True
+        ctx.count('stream:bytes_behind_the_container_left_untouched')
     if not file_end_ok and not reported_eof:
         ctx.violation('extent_end', f'extents end at {pos}, file has {len(buf)} bytes', cs,
                       mechanism='extent_end_vs_eof')
@@ -2241,7 +2584,7 @@ def judge_reopen(ctx, S, case, target, f, deduced):
         deduced.clear()
         try:
             if isinstance(target, io.BytesIO):
-                target.seek(0)
+                target.seek(base_of(case))
             with S.Sqw.open(target, **kw) as sqw:
                 got_bo = sqw.byteorder.value
                 hdr = sqw.file_header
@@ -2307,15 +2650,159 @@ def expected_exception(ctx, case, exc):
     return False
 
 
+# ------------------------------------------------- first call in a fresh interpreter ---
+# A program that imports nothing of the package but the module of the entry points (scippneutron.io.sqw), builds
+# one file and reads it back.  It is run in a new interpreter (subprocess) and, from the same source, in the
+# worker: the two files must be the same bytes (but for the two time stamps) and the reader must return the same.
+FRESH_SCRIPT = r'''
+import json
+import sys
+
+import numpy as np
+import scipp as sc
+from scippneutron.io import sqw as S
+
+
+def main(path, bo, n, title):
+    q = ['1/angstrom'] * 3 + ['meV']
+    k = np.arange(n, dtype='float64')
+    pixels = sc.DataArray(
+        sc.array(dims=['obs'], values=0.25 * k + 1, variances=0.5 * k + 2, unit='count'),
+        coords={'u1': sc.array(dims=['obs'], values=0.1 * k - 1, unit='1/angstrom'),
+                'u2': sc.array(dims=['obs'], values=3.0 - k, unit='1/nm'),
+                'u3': sc.array(dims=['obs'], values=k * k, unit='1/angstrom'),
+                'u4': sc.array(dims=['obs'], values=1e3 * k + 0.5, unit='ueV'),
+                'irun': sc.array(dims=['obs'], values=(k % 2).astype(int), unit=None),
+                'idet': sc.array(dims=['obs'], values=(k % 5).astype(int) + 1, unit=None),
+                'ien': sc.array(dims=['obs'], values=(k % 3).astype(int) + 1, unit=None)})
+    runs = [S.SqwIXExperiment(
+        run_id=i, efix=sc.scalar(2.5 + i, unit='meV'), emode=S.EnergyMode.direct,
+        en=sc.array(dims=['energy_transfer'], values=[-1.0, 0.5, 2.0 + i], unit='meV'),
+        psi=sc.scalar(30.0 * (i + 1), unit='deg'), u=sc.vector([1.0, 0.0, 0.5]), v=sc.vector([0.0, 1.0, 0.25]),
+        omega=sc.scalar(0.1, unit='rad'), dpsi=sc.scalar(0.2, unit='rad'), gl=sc.scalar(0.3, unit='rad'),
+        gs=sc.scalar(0.4, unit='rad'), filename=title + str(i), filepath='/data') for i in range(2)]
+    dnd = S.SqwDndMetadata(
+        axes=S.SqwLineAxes(
+            title=title, label=['h', title, 'l', 'E'], img_scales=[sc.scalar(1.0, unit=u) for u in q],
+            img_range=[sc.array(dims=['range'], values=[-1.5, 2.5], unit=u) for u in q],
+            n_bins_all_dims=sc.array(dims=['axis'], values=[2, 3, 1, 2], unit=None),
+            single_bin_defines_iax=sc.array(dims=['axis'], values=[True] * 4), dax=sc.arange('axis', 4, unit=None),
+            offset=[sc.scalar(0.0, unit=u) for u in q], changes_aspect_ratio=True),
+        proj=S.SqwLineProj(
+            title=title, lattice_spacing=sc.vector([2.5, 3.5, 4.5], unit='angstrom'),
+            lattice_angle=sc.vector([90.0, 60.0, 75.0], unit='deg'), offset=[sc.scalar(0.0, unit=u) for u in q],
+            label=['h', 'k', 'l', 'E'], u=sc.vector([1.0, 0.0, 0.0], unit='1/angstrom'),
+            v=sc.vector([0.0, 1.0, 0.0], unit='1/angstrom'), w=None, non_orthogonal=False, type='aaa'))
+    builder = S.Sqw.build(path, title=title, byteorder=bo)
+    builder = builder.add_default_instrument(S.SqwIXNullInstrument(
+        name=title, source=S.SqwIXSource(name='src', target_name='tgt', frequency=sc.scalar(10.0, unit='Hz'))))
+    builder = builder.add_default_sample(S.SqwIXSample(
+        name=title, lattice_spacing=sc.vector([2.5, 3.5, 4.5], unit='angstrom'),
+        lattice_angle=sc.vector([90.0, 60.0, 75.0], unit='deg')))
+    builder = builder.add_empty_detector_params().add_empty_dnd_data(dnd)
+    builder.add_pixel_data(pixels, experiments=runs).create(chunk_size=7)
+    with S.Sqw.open(path) as f:
+        pix = f.read_data_block('pix', 'data_wrap')
+        head = f.read_data_block('', 'main_header')
+        exps = f.read_data_block('experiment_info', 'expdata')
+        nd = f.read_data_block('data', 'nd_data')
+        meta = f.read_data_block('data', 'metadata')
+        return {'byteorder': f.byteorder.value, 'names': [list(x) for x in f.data_block_names()],
+                'pix': np.asarray(pix, dtype='float64').ravel().tolist(), 'title': head.title,
+                'nfiles': head.nfiles, 'efix': [float(e.efix.value) for e in exps],
+                'psi': [float(e.psi.value) for e in exps], 'filename': [e.filename for e in exps],
+                'nd': [[int(x) for x in a.shape] + [float(np.abs(a).sum())] for a in nd],
+                'label': list(meta.axes.label), 'alatt': meta.proj.lattice_spacing.values.tolist()}
+
+
+if __name__ == '__main__':
+    print(json.dumps(main(sys.argv[1], sys.argv[2], int(sys.argv[3]), json.loads(sys.argv[4]))))
+'''
+
+
+def _masked_dates(buf, bo):
+    """The file bytes with the two creation time stamps blanked (None if the file does not decode)."""
+    f = D.decode_file(buf, bo)
+    if f.header_error or f.bat_error:
+        return None
+    out = bytearray(buf)
+    for name, path in ((('', 'main_header'), ('creation_date',)), (('data', 'metadata'), ('creation_date_str',))):
+        b = f.blocks.get(name)
+        if b is None or not b.ok:
+            return None
+        node = b.value.struct()[path[0]]
+        n = node.shape[0] if node.shape else 0
+        out[node.end - n:node.end] = b'#' * n
+    return bytes(out)
+
+
+def fresh_interpreter(ctx, tmpdir, seed):
+    """(o) the first call in a fresh interpreter gives what the worker gives."""
+    import json
+    import subprocess
+
+    mine = {'__name__': 'fresh_script'}
+    exec(compile(FRESH_SCRIPT, '<fresh-interpreter script>', 'exec'), mine)   # noqa: S102  (own constant source)
+    for k in range(2):
+        bo = ('little', 'big')[(k + seed) % 2]
+        n = (23, 8)[k]
+        title = ('plain title', 'de\u0301compose\u0301 \u212b \u00b5')[(k + seed) % 2]
+        path = os.path.join(tmpdir, f'fresh{k}.sqw')
+        cs = {'fresh_interpreter': True, 'byteorder': bo, 'npix': n, 'title': title}
+        try:
+            r = subprocess.run([sys.executable, '-c', FRESH_SCRIPT, path, bo, str(n), json.dumps(title)],
+                               capture_output=True, text=True, timeout=600, env=dict(os.environ), check=False)
+        except (OSError, subprocess.SubprocessError):
+            ctx.oracle_error('C12 fresh interpreter: subprocess')
+            return
+        ctx.event('fresh_interpreter:runs')
+        if r.returncode != 0:
+            ctx.violation('fresh_interpreter_raised', 'building and reading one file in a new interpreter that '
+                          f'imports only scippneutron.io.sqw failed: {r.stderr.strip()[-300:]}', cs,
+                          mechanism='fresh_interpreter')
+            continue
+        try:
+            there = json.loads(r.stdout.strip().splitlines()[-1])
+            file_there = read_target(path)
+            os.remove(path)
+        except (ValueError, IndexError, OSError) as e:
+            ctx.violation('fresh_interpreter_raised', f'no result from the new interpreter: {e}', cs,
+                          mechanism='fresh_interpreter')
+            continue
+        try:
+            here = json.loads(json.dumps(mine['main'](path, bo, n, title)))
+            file_here = read_target(path)
+            os.remove(path)
+        except Exception as e:  # noqa: BLE001
+            ctx.violation('fresh_interpreter_differs', f'the same program raised in the worker: '
+                          f'{type(e).__name__}: {str(e)[:200]}', cs, mechanism='fresh_interpreter')
+            continue
+        a, b = _masked_dates(file_there, bo), _masked_dates(file_here, bo)
+        if a is None or b is None or a != b:
+            where = 'undecodable' if a is None or b is None else \
+                next((i for i, (x, y) in enumerate(zip(a, b, strict=False)) if x != y), min(len(a), len(b)))
+            ctx.violation('fresh_interpreter_differs', f'file written in a new interpreter ({len(file_there)} bytes) '
+                          f'differs from the file the worker writes ({len(file_here)} bytes) at byte {where}', cs,
+                          mechanism='fresh_interpreter', what_differs='file')
+        elif there != here:
+            key = next((k_ for k_ in here if there.get(k_) != here[k_]), '?')
+            ctx.violation('fresh_interpreter_differs', f'reader result {key!r} in a new interpreter '
+                          f'{str(there.get(key))[:80]} differs from the worker\'s {str(here[key])[:80]}', cs,
+                          mechanism='fresh_interpreter', what_differs='reader')
+        ctx.hit('fresh_interpreter')
+
+
 # ------------------------------------------------------------------- driver ---
 def requirements(tier):
     return {
         'events': {'header': 300, 'bat': 300, 'extents': 300, 'blocks': 1000, 'reopen': 300,
                    'reopen:byteorder_str': 300, 'reopen:byteorder_enum': 300,
                    'perm_groups': 20, 'trace:pix_data_block': 100, 'trace:dnd_data_block': 100,
-                   'trace:data_block': 500, 'trace:_deduce_byteorder': 300},
+                   'trace:data_block': 500, 'trace:_deduce_byteorder': 300, 'stream:not_empty': 20,
+                   'fresh_interpreter:runs': 2},
         'forced': FORCED,
-        'counters': {'programs_run': 326, 'model_subclass:override_calls': 1, 'retry:first_call_refused': 1},
+        'counters': {'programs_run': 326, 'model_subclass:override_calls': 1, 'retry:first_call_refused': 1,
+                     'stream:bytes_behind_the_container_left_untouched': 4},
     }
 
 
@@ -2326,6 +2813,7 @@ def run(shard, ctx):
     from scippneutron.io.sqw import _low_level_io as S_low
 
     items = items_of_shard(shard)
+    cwd_at_start = os.getcwd()
     tmpdir = tempfile.mkdtemp(prefix='rv-c12-')
     state = {'case': None, 'target': None, 'file': None, 'judged': False, 'refused': False}
     deduced = []
@@ -2345,6 +2833,10 @@ def run(shard, ctx):
             ctx.violation('no_file', f'create returned but the file cannot be read: {e}',
                           case_summary(case), mechanism='no_file')
             return
+        if case.get('_not_here') and os.path.lexists(case['_not_here']):
+            ctx.violation('file_at_other_location', 'a file appeared where the lexically normalised name points '
+                          '(the name given resolves through a symbolic link to another directory)',
+                          case_summary(case), mechanism='path_normalised')
         try:
             state['file'] = judge_structure(ctx, case, buf, trace, ev.exc)
         except Exception:  # noqa: BLE001
@@ -2367,6 +2859,7 @@ def run(shard, ctx):
                     models = build_models(S, sc, spec, case0.get('calls', case0['program']), case0)
                     describe_rows(case0, spec)
                     for case in case_reps(case0):
+                        spec = mutated(sc, case, spec, models)
                         target = open_target(case, tmpdir, rng, session)
                         state.update(case=case, target=target, file=None, judged=False, refused=False)
                         before = ctx.n_violations
@@ -2412,7 +2905,13 @@ def run(shard, ctx):
                 close_item(session)
                 if it['kind'] == 'perm_group' and len(it['cases']) > 1:
                     judge_group(ctx, it['cases'], orders_seen)
+        if shard['part'] == FRESH_SHARD % shard['of']:
+            try:
+                fresh_interpreter(ctx, tmpdir, int(shard.get('seed', 0)))
+            except Exception:  # noqa: BLE001
+                ctx.oracle_error('C12 fresh_interpreter')
     finally:
+        os.chdir(cwd_at_start)
         shutil.rmtree(tmpdir, ignore_errors=True)
     if _SUBCLASSES:
         ctx.count('model_subclass:override_calls', _SUBCLASSES['calls']['n'])
